@@ -6,11 +6,13 @@
     nf <lang> <schemas-vir>                    -> true | false <conjunct>,<conjunct>…
     ucc <"string">                             -> <"UpperCamelCase(string)">
     c06witness list | c06witness <name>        -> ok <names…> | <lang> <conjunct> <schemas-vir>
+    c06witness former | c06witness former:<i>  -> ok <n> | lpass <Pass> <vir>   (inputs of the former panics, Passes/PreFix.lean)
 -/
 import Cog.IR.Vir
 import Cog.Passes.Chain
 import Cog.NF.Preds
 import Cog.NF.Witness
+import Cog.Passes.PreFix
 import Cog.Gen.Chains
 namespace Cog.Drv
 open Cog Cog.IR Cog.Passes
@@ -53,7 +55,12 @@ def uccLine (rest : String) : String :=
   | _ => "bad-sexp"
 
 def witnessLine (rest : String) : String :=
-  if rest == "list" then "ok " ++ " ".intercalate (Cog.NF.Witness.all.map (·.1))
+  if rest == "former" then "ok " ++ toString Cog.Passes.PreFix.formerPanics.length
+  else if rest.startsWith "former:" then
+    match (match rest.splitOn ":" with | [_, n] => n.toNat? | _ => none) >>= fun i => Cog.Passes.PreFix.formerPanics[i]? with
+    | some (pass, ss) => "lpass " ++ pass ++ " " ++ (Vir.schemasOut ss).render
+    | none => "unknown-witness"
+  else if rest == "list" then "ok " ++ " ".intercalate (Cog.NF.Witness.all.map (·.1))
   else match Cog.NF.Witness.all.find? (fun w => w.1 == rest) with
     | some (_, lang, conj, ss) => lang ++ " " ++ conj ++ " " ++ (Vir.schemasOut ss).render
     | none => "unknown-witness"
